@@ -127,7 +127,8 @@ def main() -> int:
         sh(["git", "-C", "/repo", "checkout", "-q", "--", "."])
         sh(["git", "-C", "/repo", "worktree", "remove", "--force", str(wt)])
         shutil.rmtree(tmp, ignore_errors=True)
-    if not sys.argv[1:]:
+    rows = [json.load(open(p / "meta.json")) for p in sorted(SEEDED.iterdir()) if (p / "meta.json").exists()]
+    if rows:
         L = ["# Seeded changes x checks (generated by tools/seedmatrix.py)", "",
              f"/repo HEAD {head}; every change compiles, passes the repository's {base.get('n_tests', 123) if isinstance(base, dict) else 123} tests and is shown by its own demonstration.", "",
              "| seeded change | confirmed | caught by (quick tier) | first report |", "|---|---|---|---|"]
